@@ -132,6 +132,26 @@ def run(REG, tier, seed, jobs):
     ev, nt, fails = pmap(_parse_chunk, chunked(itertools.chain(gen, extra), 5000), jobs)
     parts.append({'name': 'C02/bounded/parse-print-roundtrip-and-extents', 'function': 'Parser.parse / RawPrinter', 'bound': f'all strings of <= {k} tokens over a {len(TOKENS)}-token alphabet, plus random token soups of 4..12 tokens',
                   'evaluations': ev, 'distinct_nontrivial': nt, 'rule': 'non-trivial: accepted by the parser', 'exhaustive': False, 'failures': fails})
+    from bounded import exprgen
+    rtexts = []
+    for _ in range(4000 if tier == 'quick' else 60000):
+        t_, _v = exprgen.expression(rnd, 4)
+        triv = rnd.choice([lambda: ' ', lambda: rnd.choice(['', ' ', '  ']), lambda: rnd.choice(['', ' ', ' \\\n ', '\t'])])
+        body = exprgen.show(t_, triv)
+        form = rnd.randrange(4)
+        if form == 0:
+            rtexts.append('x = ' + body + rnd.choice(['', '\n', ' # c', '\n\n']))
+        elif form == 1:
+            rtexts.append('f(' + rnd.choice(['', '\n  ', ' # c\n ']) + body + rnd.choice(['', ',', ',\n', ' # d\n']) + ')\n')
+        elif form == 2:
+            rtexts.append('if ' + body + '\n  y = [' + body + ', ' + body + ']\nendif' + rnd.choice(['', '\n']))
+        else:
+            rtexts.append('a = {' + "'k' : " + body + rnd.choice(['', ', ']) + '}\nb += ' + body + '\n')
+    ev, nt, fails = pmap(_parse_chunk, chunked(iter(rtexts), 500), jobs)
+    if nt < len(rtexts) * 0.6:
+        fails = fails + [{'case': {'text': ''}, 'stage': 'harness', 'detail': f'only {nt} of {len(rtexts)} generated expression texts were accepted'}]
+    parts.append({'name': 'C02/bounded/random-expression-texts-roundtrip', 'function': 'Parser.parse / RawPrinter', 'bound': f'{len(rtexts)} texts: random expressions of depth <= 4 printed with minimal parentheses and random trivia (blanks, tabs, continuations) inside assignments, calls with comments and newlines, if blocks, dict literals',
+                  'evaluations': ev, 'distinct_nontrivial': nt, 'rule': 'non-trivial: accepted by the parser', 'exhaustive': False, 'failures': fails})
     from bounded.parser_struct import structured, TEMPLATES, ENDS
     progs = list(structured(rnd, 300 if tier == 'quick' else 5000))
     ev, nt, fails = pmap(_parse_chunk, chunked(iter(progs), 2000), jobs)
@@ -164,5 +184,6 @@ CHECKS = {
     'C02/bounded/lexer-positions-on-token-strings': (_lex_chunk, lambda c: c['text']),
     'C02/bounded/parse-print-roundtrip-and-extents': (_parse_chunk, lambda c: c['text']),
     'C02/bounded/structured-programs-roundtrip': (_parse_chunk, lambda c: c['text']),
+    'C02/bounded/random-expression-texts-roundtrip': (_parse_chunk, lambda c: c['text']),
     'C02/bounded/corpus-build-files': (_parse_chunk, lambda c: c['text']),
 }
